@@ -3,6 +3,7 @@ import collections
 import types
 import vf
 vf.use_repo()
+from ak.color import CHText  # noqa: E402
 from ak.ppobj import PPTable, PPRecordFmt, RecordField, ReprStructure  # noqa: E402
 from vf import tables as T  # noqa: E402
 from vf.core import sig_of  # noqa: E402
@@ -61,7 +62,7 @@ def gen_case(rng, big=False):
     centered = rng.choice([None, None, 'a', 'b', 'd'])
     # how the records are made and how the table learns where the values are
     shape = rng.choice([None] * 9 + ['namedtuple', 'dict-paths', 'pos-paths', 'attr', 'field-objects',
-                                     'attr-of-a-mapping', 'case-twins'])
+                                     'attr-of-a-mapping', 'case-twins', 'attr-falsy'])
     if shape:
         later = None
     if rng.random() < 0.012:
@@ -96,6 +97,14 @@ def rng_free_len(c):
 _REC = collections.namedtuple("Rec", T.FIELDS)
 
 
+class FalsyRecord(types.SimpleNamespace):
+    def __bool__(self):
+        return False
+
+    def __len__(self):
+        return 0
+
+
 class MappingRecord(dict):
     """a record class of the application: a dict with attributes"""
 
@@ -125,6 +134,9 @@ def shaped(c):
         return [_REC(*r) for r in recs], fmt, None
     if shape == 'attr':
         return [types.SimpleNamespace(**dict(zip(T.FIELDS, r))) for r in recs], fmt, None
+    if shape == 'attr-falsy':
+        # (records whose truth value is False - a measurement that 'is zero', an empty collection with attributes)
+        return [FalsyRecord(**dict(zip(T.FIELDS, r))) for r in recs], fmt, None
     if shape == 'attr-of-a-mapping':
         # the records are mappings of the application (a dict subclass) whose ATTRIBUTES hold the values; keys of the
         # same names exist too and hold something else
@@ -271,7 +283,6 @@ def judge(ctx, c, case):
             alone_b = T.render(tb).split("\n")
             it_a, it_b = iter(t.ch_text(no_color=True)), iter(tb.ch_text(no_color=True))
             la, lb = [], []
-            from ak.color import CHText
             done_a = done_b = False
             while not (done_a and done_b):
                 try:
@@ -381,11 +392,38 @@ def judge(ctx, c, case):
         # composed when the table is created)
         ctx.count("tables_reprinted_after_record_list_changed")
         recs2 = c['recs']
+        # (one more print of the table was begun before: its first lines were taken, the rest is taken afterwards.
+        # What it shows of a list that changes under it is its own business - but it is one table: one width, the
+        # separators under the '+' marks of its border)
+        begun = None
+        if len(c['fmt']) % 2 == 0:
+            try:
+                begun = iter(t.ch_text(no_color=True))
+                head = [str(CHText(next(begun))) for _ in range(2)]
+            except StopIteration:
+                begun = None
+            except Exception as err:
+                ctx.violation("table-raises", {"type": type(err).__name__, "msg": str(err)[:200], "step": "lazy print"}, case)
+                return
         if c.get('grow_by', 0) >= 0:
             recs2.extend(c['extra_recs'])
         else:
             del recs2[len(recs2) // 2:]
         try:
+            lines2 = T.render(t).split("\n")
+            if begun is not None:
+                lazy = head + [str(CHText(x)) for x in begun]
+                ctx.count("prints_finished_after_the_record_list_changed")
+                border = lazy[0]
+                marks = [k for k, ch in enumerate(border) if ch == '+']
+                for ln in lazy:
+                    if len(ln) != len(border) or (ln.startswith("+") and [k for k, ch in enumerate(ln) if ch == '+'] != marks):
+                        ctx.violation("lines-of-different-width", {"step": "a print finished after the record list changed",
+                                                                   "border": border[:80], "line": ln[:80], "fmt": c['fmt']}, case)
+                        return
+        except RuntimeError as err:
+            # (a list that changes size while it is walked over may be refused by python itself)
+            ctx.count("prints_over_a_changing_list_refused(not judged)")
             lines2 = T.render(t).split("\n")
         except Exception as err:
             ctx.violation("table-raises", {"type": type(err).__name__, "msg": str(err)[:200], "step": step}, case)
